@@ -646,7 +646,7 @@ bool Interpret::getAssignment() const {
     ss << '(';
     for (auto const & [name, term] : termNames) {
         lbool val = solver.getTermValue(term);
-        ss << '(' << name << ' ' << (val == l_True ? "true" : (val == l_False ? "false" : "unknown")) << ')' << " ";
+        ss << '(' << solver.getLogic().protectName(name, false) << ' ' << (val == l_True ? "true" : (val == l_False ? "false" : "unknown")) << ')' << " ";
     }
     ss.seekp(-1, std::ios::cur);
     ss << ')';
